@@ -2042,6 +2042,20 @@ unit(name="SrcQGramIndex", props="property C19", file="src/data_structures/qgram
                      theorem="RbV.Thm.GenSrcQGramIndex.withMaxCount_eq_model")])
 
 
+# `N: Ord + Clone` is read at `Int` (what the harness drives the tree with; any total order would do), `D` stays generic
+IIT_STRUCTS = {"Interval": [("start", "N"), ("end", "N")],
+               "InternalEntry": [("data", "D"), ("interval", "Interval"), ("max", "N")]}
+
+unit(name="SrcIit", props="property C07", file="src/data_structures/interval_tree/array_backed_interval_tree.rs",
+     dialect="cf", generics={"D": "δ"}, ordered_instances={"N": "Int"}, structs=IIT_STRUCTS,
+     abstract_fns={"max3": dict(lean="max3", args=["N", "N", "N"], ret="N")},
+     functions=[dict(name="ArrayBackedIntervalTree::index_core", lean="indexCore", header="fn index_core(&mut self)",
+                     self_fields=[("entries", "Vec<InternalEntry>"), ("max_level", "usize")], params=[], ret=None,
+                     locals={"last_i": "usize", "k": "usize", "x": "usize", "i0": "usize", "step": "usize"},
+                     # `(1 << k) <= n` fails after at most 64 rounds (a shift by 64 would panic first)
+                     fuel=["65"], theorem="RbV.Thm.GenSrcIit.indexCore_eq_model")])
+
+
 # ================================================================================================== self-test
 
 SELFTEST_RS = r"""
